@@ -9,7 +9,8 @@ import (
 
 // Directed executions that are always part of the recorded traces (shape N=3, one change): corner cases a
 // random schedule reaches only rarely. Actions: E (Ensure), F<t><res> with res ok|err|retry<h>|wait,
-// A (user abort), R (crash+restart), S (stop), T (tick), W<t> (resolve wait); a fair drain follows.
+// A (user abort), R (crash+restart), S (stop), T (tick), W<t> (resolve wait), X<Status><t> (a manager sets
+// the status of pending task t directly); a fair drain follows.
 type directed struct {
 	name    string
 	g       Graph
@@ -56,6 +57,11 @@ var directedCases = []directed{
 	{"undo-chain-blocked-by-wait", g3([][]int{{}, {1}, {2}}, [][]int{{0}, {0}, {0}}, allUndo), "E F1ok E F2ok E A F3ok E F3wait E E W3 E"},
 	// a do chain blocked by a task in Wait
 	{"do-chain-blocked-by-wait", g3([][]int{{}, {1}, {2}}, [][]int{{0}, {0}, {0}}, allUndo), "E F1wait E E W1 E"},
+	// a manager flags a pending task as failed/held directly: its followers stay pending, they never start
+	// (the finished independent task comes first in task order: the other order is the known abort panic)
+	{"forced-error-followers-wait", g3([][]int{{}, {}, {2}}, [][]int{{0}, {0}, {0}}, allUndo), "XError2 E E F1ok E A E"},
+	{"forced-hold-followers-wait", g3([][]int{{}, {1}, {2}}, [][]int{{1}, {1}, {1}}, allUndo), "XHold1 E E A E"},
+	{"forced-undone-followers-wait", g3([][]int{{}, {1}, {1}}, [][]int{{0}, {0}, {0}}, allUndo), "XUndone1 E E A E"},
 	// graceful stop while an undo handler is in flight: its error is a cancellation, the undo is re-run
 	{"stop-undo-err-retried", g3([][]int{{}, {1}, {}}, [][]int{{0}, {0}, {0}}, allUndo), "E F1ok F3ok E F2err E S F1err R E"},
 	{"stop-undo-err-retried-2", g3([][]int{{}, {1}, {1}}, [][]int{{0}, {0}, {0}}, allUndo), "E F1ok E F2ok F3err E S F2err F1err R E"},
@@ -109,6 +115,11 @@ func runDirected(d directed, id string, enc *json.Encoder) error {
 				if err := e.Stop(); err != nil {
 					return err
 				}
+			}
+		case 'X': // X<Status><t>
+			t := int(a[len(a)-1] - '0')
+			if p.Status[t-1] == "Do" {
+				e.Force(t, a[1:len(a)-1])
 			}
 		case 'T':
 			e.Tick()
